@@ -6,6 +6,7 @@ use super::super::{
     meta_subscriber::MoveSubscriber,
     meta_container::MoveContainer,
 };
+#[cfg(not(feature = "verif"))]
 use std::{
     fmt::Debug,
     ptr,
@@ -18,6 +19,8 @@ use std::{
     cell::UnsafeCell,
     mem::ManuallyDrop,
 };
+#[cfg(feature = "verif")]
+use {crate::verif::atomic::AtomicBool, std::{fmt::Debug, ptr, sync::atomic::Ordering::Relaxed, pin::Pin, num::NonZeroU32, cell::UnsafeCell, mem::ManuallyDrop}};
 
 
 /// Basis for multiple producer / multiple consumer queues using a quick-and-dirty (but fast)
@@ -51,6 +54,16 @@ FullSyncMove<SlotType, BUFFER_SIZE> {
 
     fn with_initializer<F: Fn() -> SlotType>(slot_initializer: F) -> Self {
         debug_assert!(Self::BUFFER_SIZE_MUST_BE_A_POWER_OF_2);     // assures no non-power of 2 buffer may be used
+        #[cfg(feature = "verif")]
+        if crate::verif::sequence_origin() != 0 {
+            let origin = crate::verif::sequence_origin();
+            return Self {
+                head:              UnsafeCell::new(origin),
+                tail:              UnsafeCell::new(origin),
+                concurrency_guard: AtomicBool::new(false),
+                buffer:            UnsafeCell::new(Box::pin([0; BUFFER_SIZE].map(|_| ManuallyDrop::new(slot_initializer())))),
+            }
+        }
         // if !BUFFER_SIZE.is_power_of_two() {
         //     panic!("FullSyncMeta: BUFFER_SIZE must be a power of 2, but {BUFFER_SIZE} was provided.");
         // }
@@ -192,6 +205,7 @@ FullSyncMove<SlotType, BUFFER_SIZE> {
         let mut len_before;
         loop {
             ogre_sync::lock(&self.concurrency_guard);
+            #[cfg(feature = "verif")] crate::verif::yield_point("fsm.leak.read");
             let tail = *unsafe { &* self.tail.get() };
             let head = *unsafe { &* self.head.get() };
             len_before = tail.overflowing_sub(head).0;
@@ -212,6 +226,7 @@ FullSyncMove<SlotType, BUFFER_SIZE> {
     /// -- assumes the lock is in the acquired state
     #[inline(always)]
     pub fn publish_leaked_internal(&self) {
+        #[cfg(feature = "verif")] crate::verif::yield_point("fsm.publish.write");
         let tail = unsafe { &mut * self.tail.get() };
         *tail = tail.overflowing_add(1).0;
         ogre_sync::unlock(&self.concurrency_guard);
@@ -221,6 +236,7 @@ FullSyncMove<SlotType, BUFFER_SIZE> {
     /// -- assumes the lock is in the acquired state, leaving it untouched
     #[inline(always)]
     pub fn unleak_internal(&self) {
+        #[cfg(feature = "verif")] crate::verif::yield_point("fsm.unleak.write");
         let tail = unsafe { &mut * self.tail.get() };
         *tail = tail.overflowing_sub(1).0;
         ogre_sync::unlock(&self.concurrency_guard);
@@ -238,6 +254,7 @@ FullSyncMove<SlotType, BUFFER_SIZE> {
         let mut len_before;
         loop {
             ogre_sync::lock(&self.concurrency_guard);
+            #[cfg(feature = "verif")] crate::verif::yield_point("fsm.consume.read");
             let head = *unsafe { &mut * self.head.get() };
             len_before = self.available_elements_count() as i32;
             if len_before > 0 {
@@ -256,6 +273,7 @@ FullSyncMove<SlotType, BUFFER_SIZE> {
     /// -- assumes the lock is in the acquire state, leaving it untouched
     #[inline(always)]
     fn release_leaked_internal(&self) {
+        #[cfg(feature = "verif")] crate::verif::yield_point("fsm.release.write");
         let head = unsafe { &mut * self.head.get() };
         *head = head.overflowing_add(1).0;
     }
